@@ -17,7 +17,7 @@ using namespace c06;
 
 const char* property_id() { return "C06"; }
 unsigned case_timeout_s() { return 300; }
-uint64_t num_cases(bool thorough) { return thorough ? 400000 : 8000; }
+uint64_t num_cases(bool thorough) { return thorough ? 150000 : 8000; }
 void final_report() {}
 
 typedef std::allocator<uint8_t> AL;
@@ -153,13 +153,13 @@ void run_case(uint64_t idx, Rng& r) {
   const bool T = G().thorough();
   Cfg c;
   c.cpc = r.coin();
-  const bool big = !c.cpc && r.chance(T ? 0.04 : 0.01);     // HLL with a big lg_k: long LIST/SET phase
-  c.lg_k = static_cast<uint8_t>(big ? r.range(15, 21) : r.range(4, T ? 14 : 12));
+  const bool big = r.chance(T ? 0.04 : 0.02);     // big lg_k: long LIST/SET resp. sparse phase, error constants of the lg_k > 12 / > 14 branches
+  c.lg_k = static_cast<uint8_t>(big ? r.range(15, c.cpc ? 18 : 21) : r.range(4, 14));
   c.type = static_cast<int>(r.below(3));
   const uint64_t k = 1ULL << c.lg_k;
   const uint64_t cap = T ? 400000 : 60000;
   const double hi = static_cast<double>(std::min<uint64_t>(64 * k, cap));
-  if (big) c.nmax = static_cast<uint64_t>(std::exp(r.unit() * std::log(static_cast<double>(std::min<uint64_t>(k / 8, T ? 300000 : 100000)))));
+  if (big) c.nmax = static_cast<uint64_t>(std::exp(r.unit() * std::log(static_cast<double>(T ? 300000 : 100000))));
   else c.nmax = r.chance(0.33) ? 1 + r.below(k / 2 + 1) : static_cast<uint64_t>(std::exp(r.unit() * std::log(hi)));
   if (c.nmax < 1) c.nmax = 1;
   c.parts = static_cast<int>(r.range(2, 3));
